@@ -1,6 +1,87 @@
-(* C05 — Unmarshal accepts exactly conforming streams and is safe on untrusted input.  The model `unm` IS the reference interpretation (total Gallina function: it cannot panic; panics of the implementation are correspondence observables); the theorems state its termination for every stream and target, the consumption discipline and the reporting clauses. *)
-From SbModel Require Import Model.Marshal Model.Unmarshal Spec.Conform Proofs.UnmarshalP.
+(* C05 — Unmarshal accepts exactly conforming streams and is safe on untrusted input.  The model `unm` IS the reference interpretation (total Gallina function: it cannot panic; panics of the implementation are correspondence observables); the theorems state its termination for every stream and target, the consumption discipline and the reporting clauses.  CONFORMANCE (Spec/ConformSpec.v, 288 lines of definitions; Proofs/ConformP.v): `Conforms pf o R t cur ts v rest` is the declarative statement of 'the stream structurally conforms to the target': one rule per clause of the property (Nil leaves the target; a scalar token whose kind is exactly the target's kind; bytes into []byte / [n]byte with length s <= n; literal conversion; type-name prefix skipped for a concrete target; pointer = fresh pointee; array = at most n items in place; slice = items appended; map = entries with comparable keys; struct = fields matched by exported name, unknown names skipped by structure unless strict and not deprecated; tuple funcs; and nine rules for untyped targets), mutually with seven loop relations; no fuel, no error classes.  The executable `unm` succeeds EXACTLY on the conforming streams, with exactly that result. *)
+From SbModel Require Import Model.Marshal Model.Unmarshal Spec.Conform Proofs.UnmarshalP Spec.ConformSpec Proofs.ConformP.
 Local Open Scope nat_scope.
+
+(* unmarshalling succeeds exactly when the stream structurally conforms to the target, and the result is the reference interpretation *)
+Theorem c05_ok_iff_conforms pf o R t cur ts v rest :
+  (exists f, unm pf f o R t cur ts = Ok (v, rest)) <-> Conforms pf o R t cur ts v rest.
+Proof. exact (unm_ok_iff_conforms pf o R t cur ts v rest). Qed.
+
+Theorem c05_conforms_sound pf o R t cur ts v rest :
+  Conforms pf o R t cur ts v rest -> exists f, unm pf f o R t cur ts = Ok (v, rest).
+Proof. exact (conforms_sound pf o R t cur ts v rest). Qed.
+
+Theorem c05_conforms_complete pf o R :
+  forall f t cur ts v rest,
+  unm pf f o R t cur ts = Ok (v, rest) -> Conforms pf o R t cur ts v rest.
+Proof. exact (conforms_complete pf o R). Qed.
+
+(* with an explicit fuel bound: conformance is decidable by running the model *)
+Theorem c05_conforms_iff_bound pf o R t cur ts v rest :
+  Conforms pf o R t cur ts v rest <-> unm pf (fuel_bound R t ts) o R t cur ts = Ok (v, rest).
+Proof. exact (conforms_iff_bound pf o R t cur ts v rest). Qed.
+
+(* the interpretation is unique *)
+Theorem c05_conforms_functional pf o R t cur ts v rest v' rest' :
+  Conforms pf o R t cur ts v rest -> Conforms pf o R t cur ts v' rest' -> v = v' /\ rest = rest'.
+Proof. exact (conforms_functional pf o R t cur ts v rest v' rest'). Qed.
+
+Theorem c05_conforms_fuel_independent pf o R t cur ts v rest f :
+  Conforms pf o R t cur ts v rest ->
+  unm pf f o R t cur ts = OutOfFuel \/ unm pf f o R t cur ts = Ok (v, rest).
+Proof. exact (conforms_fuel_independent pf o R t cur ts v rest f). Qed.
+
+(* a stream is rejected exactly when it does not conform (never both, never neither: c05_total) *)
+Theorem c05_err_iff_not_conforms pf o R t cur ts :
+  (exists f e, unm pf f o R t cur ts = Err e) <-> ~ (exists v rest, Conforms pf o R t cur ts v rest).
+Proof. exact (unm_err_iff_not_conforms pf o R t cur ts). Qed.
+
+Theorem c05_conforms_consumes pf o R t cur ts v rest :
+  Conforms pf o R t cur ts v rest -> exists used, ts = used ++ rest /\ used <> [].
+Proof. exact (conforms_consumes pf o R t cur ts v rest). Qed.
+
+(* scalar kinds match the target kind exactly *)
+Theorem c05_scalar_conforms_iff pf o R t cur tk rest v rest' :
+  is_scalar_ty (underlying t) = true -> scalar_tok tk = true ->
+  (Conforms pf o R t cur (tk :: rest) v rest' <->
+   tok_matches t tk = true /\ any_of_token tk = Some (underlying t, v) /\ rest' = rest).
+Proof. exact (scalar_conforms_iff pf o R t cur tk rest v rest'). Qed.
+
+(* a kind mismatch is reported with the offending token kind and the target kind - for every target that is not a pointer, an interface or time.Time *)
+Theorem c05_mismatch_reported_general pf o R f t cur tk rest :
+  scalar_tok tk = true -> tok_matches t tk = false ->
+  underlying t <> TTime -> underlying t <> TAny -> (forall e, underlying t <> TPtr e) ->
+  unm pf (S f) o R t cur (tk :: rest) = Err (EMismatch (kind tk) (rk_of t)).
+Proof. exact (mismatch_reported pf o R f t cur tk rest). Qed.
+
+(* the same for NaN / Bytes / Array / Object / Map / Tuple tokens against a target of another shape.  (That the error of an item or field value is the error of the whole value - array_error_propagates, field_error_propagates, array_item_mismatch_reported - is proved in Proofs/ConformP.v over section-local prefix relations and checked by Print Assumptions there.) *)
+Theorem c05_mismatch_reported_structural pf o R f t cur k x rest :
+  In k [KNaN; KBytes; KArray; KObject; KMap; KTuple] -> open_accepts k (underlying t) = false ->
+  underlying t <> TTime -> (forall e, underlying t <> TPtr e) ->
+  unm pf (S f) o R t cur (T k x :: rest) = Err (EMismatch k (rk_of t)).
+Proof. exact (mismatch_reported_structural pf o R f t cur k x rest). Qed.
+
+(* a derivation: unknown field skipped, pointer field allocated, unexported field kept *)
+Theorem c05_conforms_example  :
+  Conforms cpf0 default_opts [] ExS ex_s_cur ex_s_stream ex_s_result [T KBool (VBool true)].
+Proof. exact (conforms_struct_ex ). Qed.
+
+(* arrays are not longer than the target array *)
+Theorem c05_array_longer_example  :
+  unm cpf0 3 default_opts [] (TArray 1 (TInt WNat)) (GList false [GInt 9]) ex_arr_stream = Err ETooMany /\
+  ~ (exists v rest, Conforms cpf0 default_opts [] (TArray 1 (TInt WNat)) (GList false [GInt 9]) ex_arr_stream v rest).
+Proof. exact (array_longer_ex ). Qed.
+
+Local Open Scope N_scope.
+(* the same for the bytes form (this edge was found by the proof: the code truncated silently; repaired in /repo 64bf42e) *)
+Theorem c05_bytes_longer_than_array  :
+  unm cpf0 1 default_opts [] (TByteArray 2) (GBytes false [9; 9]) [T KBytes (VBytes [1; 2; 3])] = Err ETooMany /\
+  ~ (exists v rest, Conforms cpf0 default_opts [] (TByteArray 2) (GBytes false [9; 9]) [T KBytes (VBytes [1; 2; 3])] v rest) /\
+  unm cpf0 3 default_opts [] (TByteArray 2) (GBytes false [9; 9])
+      [T KArray VNone; T KUint8 (VU W8 1); T KUint8 (VU W8 2); T KUint8 (VU W8 3); T KArrayEnd VNone] = Err ETooMany /\
+  unm cpf0 1 default_opts [] (TByteArray 3) (GBytes false [9; 9; 9]) [T KBytes (VBytes [1])] = Ok (GBytes false [1; 9; 9], []) /\
+  Conforms cpf0 default_opts [] (TByteArray 3) (GBytes false [9; 9; 9]) [T KBytes (VBytes [1])] (GBytes false [1; 9; 9]) [].
+Proof. exact (bytes_longer_than_array_edge ). Qed.
 
 (* never fails to terminate: an explicit fuel bound (linear in the stream, scaled by the depth of registered types) always suffices, for EVERY token stream and EVERY target type *)
 Theorem c05_total pf o R t cur ts :
@@ -63,6 +144,20 @@ Theorem c05_skip_any_value o t v ts rest :
   marshal o t v = Ok ts -> skip_value 0 (ts ++ rest) = Ok rest.
 Proof. exact (marshal_skip o t v ts rest). Qed.
 
+Print Assumptions c05_ok_iff_conforms.
+Print Assumptions c05_conforms_sound.
+Print Assumptions c05_conforms_complete.
+Print Assumptions c05_conforms_iff_bound.
+Print Assumptions c05_conforms_functional.
+Print Assumptions c05_conforms_fuel_independent.
+Print Assumptions c05_err_iff_not_conforms.
+Print Assumptions c05_conforms_consumes.
+Print Assumptions c05_scalar_conforms_iff.
+Print Assumptions c05_mismatch_reported_general.
+Print Assumptions c05_mismatch_reported_structural.
+Print Assumptions c05_conforms_example.
+Print Assumptions c05_array_longer_example.
+Print Assumptions c05_bytes_longer_than_array.
 Print Assumptions c05_total.
 Print Assumptions c05_total_exists.
 Print Assumptions c05_fuel_monotone.
